@@ -7,7 +7,8 @@ S = os.path.join(V, "seeded")
 os.makedirs(S, exist_ok=True)
 rows = []
 seen = {}
-for rf in sorted(glob.glob("/tmp/seed-results-C*.txt")):
+suites = {}
+for rf in sorted(glob.glob("/tmp/seed-results-C*.txt")) + sorted(glob.glob("/tmp/final-results-C*.txt")):
     P = re.search(r"results-(C\d+)", rf).group(1)
     txt = open(rf).read()
     for m in re.finditer(r"--- (C\d+) change(\d): (.*?)\n(.*?)(?=\n--- |\nDONE|\Z)", txt, re.S):
@@ -16,8 +17,20 @@ for rf in sorted(glob.glob("/tmp/seed-results-C*.txt")):
         if not os.path.exists(src + "/patch.diff"):
             continue
         applied = "APPLY: ok" in body
+        if not applied and (p, i) in seen:
+            continue  # an earlier trial applied (the tree moved on since): keep that record
         built = "BUILD: ok" in body
         suite = "pass" if "SUITE: pass" in body else ("FAILS" if "SUITE: FAILS" in body else "not run")
+        if suite == "FAILS":
+            # tests that fail or hang sporadically on the ORIGINAL commit under machine load (NOTES.md)
+            flaky = ("TestUpstream_Resume_Unreliable", "TestUpstream_SendDataPointWithAck", "TestUpstream_ClientConnClose", "TestE2E_", "test timed out", "TestTransport_ReadWrite_Datagrams", "TestUpstream_Resume_Failure")
+            m2 = re.search(r"SUITE: FAILS[^\n]*((?:\n(?!CHECK|---|DONE)[^\n]*)*)", body)
+            names = re.findall(r"(Test\w+|test timed out)", m2.group(0)) if m2 else []
+            if names and all(any(n.startswith(f) or f in n for f in flaky) for n in names):
+                suite = "pass except load-flaky baseline tests (%s)" % ", ".join(sorted(set(names)))
+        if suite == "not run" and (p, i) in suites:
+            suite = suites[(p, i)]
+        suites[(p, i)] = suite
         checks = re.findall(r"CHECK (C\d+): exit (\d+) :: (\d+) violation line\(s\) :: (.*?) :: (.*)", body)
         dst = os.path.join(S, "%s-%s" % (p, i))
         os.makedirs(dst, exist_ok=True)
